@@ -51,6 +51,7 @@ From Coq Require Import PrimFloat.
 From Coq Require Import ZArith List Bool Reals Lra Permutation Sorted.
 From BZ Require Import Base.Ops Gen.Point Gen.BBox Gen.Line Gen.Quad Gen.Cubic Hand.Bounds Hand.Shoelace Hand.Winding Proofs.C05 Proofs.C11 Proofs.C11curves Proofs.C11box.
 Import ListNotations.
+From BZ Require Gen.Sample Gen.Winding Proofs.Bridge4.
 Open Scope R_scope.
 
 Theorem C11_abs_sum_signs_parity :
@@ -194,6 +195,21 @@ Proof. exact polygon_even_odd_via_sized. Qed.
 Theorem C11_lens_query_sized :
   mixed_query_sized lens_x lens_box 1 (15 / 4).
 Proof. exact lens_query_sized. Qed.
+Theorem C11_Path_bounds_gen :
+  forall (T : Type) (O : Ops T) (segs : list (segment T)), Winding.Path_bounds O segs = match all_some (map (segment_bounds O) segs) with | Some boxes => Sample.Returns (path_bounds O boxes) | None => Sample.Raises Sample.PyNoneError end.
+Proof. exact @Bridge4.Path_bounds_gen. Qed.
+Theorem C11_windingNumberOfPoint_gen :
+  forall (T : Type) (O : Ops T), neg O (ofZ O 10) = ofZ O (-10) -> forall (segs : list (segment T)) (p : pt T), Winding.Path_windingNumberOfPoint O segs p = Bridge4.outcome_of_option (windingNumberOfPoint O segs p).
+Proof. exact @Bridge4.windingNumberOfPoint_gen. Qed.
+Theorem C11_pointIsInside_gen :
+  forall (T : Type) (O : Ops T), neg O (ofZ O 10) = ofZ O (-10) -> forall (segs : list (segment T)) (p : pt T), Winding.Path_pointIsInside O segs p = Bridge4.outcome_of_option (pointIsInside O segs p).
+Proof. exact @Bridge4.pointIsInside_gen. Qed.
+Theorem C11_Hneg_R :
+  neg ROps (ofZ ROps 10) = ofZ ROps (-10).
+Proof. exact @Bridge4.Hneg_R. Qed.
+Theorem C11_Hneg_F :
+  neg FOps (ofZ FOps 10) = ofZ FOps (-10).
+Proof. exact @Bridge4.Hneg_F. Qed.
 
 Print Assumptions C11_abs_sum_signs_parity.
 Print Assumptions C11_winding_sum_parity_any.
@@ -242,3 +258,8 @@ Print Assumptions C11_mixed_even_odd_sized.
 Print Assumptions C11_polygon_mixed_query_sized.
 Print Assumptions C11_polygon_even_odd_via_sized.
 Print Assumptions C11_lens_query_sized.
+Print Assumptions C11_Path_bounds_gen.
+Print Assumptions C11_windingNumberOfPoint_gen.
+Print Assumptions C11_pointIsInside_gen.
+Print Assumptions C11_Hneg_R.
+Print Assumptions C11_Hneg_F.
